@@ -94,9 +94,12 @@ def check_migrate():
 
 
 def check_init():
-    for kind, crlf in (('rules', False), ('rules', True), ('csv', False), ('csv', True)):
-        b = budget(kind, crlf)
+    for kind, crlf in (('rules', False), ('rules', True), ('csv', False), ('csv', True), ('csv+rules', False)):
+        b = budget('csv' if kind == 'csv+rules' else kind, crlf)
         try:
+            if kind == 'csv+rules':
+                # a legacy CSV next to a hand-written merchants.rules that settings.yaml does not mention yet: init must not touch either
+                b.write('config/merchants.rules', '# my own rules\n' + RULES)
             if kind == 'rules':
                 os.remove(os.path.join(b.config, 'views.rules'))      # something for init to create
             b.write('config/notes.txt', 'keep me')
@@ -109,7 +112,7 @@ def check_init():
                 if path == 'config/settings.yaml':
                     if not after.get(path, b'').startswith(content):
                         O.fail('C20.init.settings_not_prefix_preserved', w, 'settings.yaml may only gain appended lines', after.get(path, b'')[:160])
-                elif path == 'config/merchant_categories.csv' and kind == 'csv':
+                elif path == 'config/merchant_categories.csv' and kind in ('csv', 'csv+rules'):
                     kept = after.get(path) == content or after.get(path + '.bak') == content
                     if not kept:
                         O.fail('C20.init.csv_rules_lost', w, 'original CSV kept (in place or as .bak)', sorted(after))
